@@ -350,6 +350,37 @@ func c17R4(p *Prog, r *Report, e *RaceEngine) {
 			}
 			return unknown
 		case *ssa.Phi:
+			// a slice carried around the loop in which the message is built (same buffer handed
+			// out again in a later iteration): the phi at a loop header reaches itself through a back edge
+			if msgStore != nil && naturalLoopContains(x.Block(), msgStore.Block()) {
+				for i, ed := range x.Edges {
+					if !x.Block().Dominates(x.Block().Preds[i]) {
+						continue
+					}
+					seenPhi := map[ssa.Value]bool{}
+					var reaches func(w ssa.Value) bool
+					reaches = func(w ssa.Value) bool {
+						if w == ssa.Value(x) {
+							return true
+						}
+						ph, ok := w.(*ssa.Phi)
+						if !ok || seenPhi[w] {
+							return false
+						}
+						seenPhi[w] = true
+						for _, e2 := range ph.Edges {
+							if reaches(e2) {
+								return true
+							}
+						}
+						return false
+					}
+					if reaches(ed) {
+						where = "the local buffer " + x.Comment + " that is carried over from the previous iteration of the loop (" + p.InstrPos(x) + ")"
+						return view
+					}
+				}
+			}
 			res := fresh
 			for _, ed := range x.Edges {
 				if ed == v {
